@@ -259,6 +259,18 @@ func (w *world) emitShim() string {
 		}
 		fmt.Fprintf(&sb, "\t%q: %s,\n", spec.Name, spec.Name)
 	}
+	for _, name := range shimExtra {
+		if p := w.pkgs["pkg/provider"]; p != nil {
+			if obj := p.Types.Scope().Lookup(name); obj != nil {
+				if _, ok := obj.Type().(*types.Signature); ok {
+					fmt.Fprintf(&sb, "\t%q: %s,\n", name, name)
+				}
+			}
+		}
+	}
 	sb.WriteString("}\n")
 	return sb.String()
 }
+
+// shimExtra: unexported, untranslated helpers the harness calls to obtain the library's own view of a request.
+var shimExtra = []string{"getAuthRequestFromRequest", "getLogoutRequestFromRequest", "makeAttributeQueryResponse", "makeAssertion", "makeResponse", "createRedirectSignature", "createPostSignature", "getMetadataCert"}
